@@ -364,6 +364,9 @@ def generate(ctx):
         inp["c"] = [rng.randint(0, 3) for _ in range(n)]
         inp["cuts"] = U.rand_cuts(rng, n, maxparts=6, p_empty=0.3)
         inp["op"] = rng.choice(["cumsum", "cumprod", "cumcount"])
+        if rng.random() < 0.4:
+            inp["keykind"] = "nakey"           # key 0 becomes NaN: a NaN-key group spanning several partitions
+            inp["dropna"] = rng.choice([False, False, True, None])
         yield "misc", inp
     for _ in range(ctx.n(70, 700)):
         kk = rng.choice(["int", "int", "str", "cat", "nakey"])
